@@ -69,12 +69,14 @@ ExpLocV(v, i) ==
              IF ChainOf(i) # {} THEN (IF Clocked THEN Transition(Loaded(i), Captured(R.st, v, i)) ELSE Transition(Loaded(i), Loaded(i)))
              ELSE IF PiIdx(i) # {} THEN Transition(InitPi[CHOOSE k \in PiIdx(i) : TRUE], P.cpi[CHOOSE k \in PiIdx(i) : TRUE])
              ELSE UNASSIGNED
-LocDomain == R.loc_checked /\ HasPulse(P.cpi)
+\* flip-flops are judged for every pattern; inputs only when the capture call carries a clock pulse (without one the
+\* statement does not say which of the two input strings forms the second half of the transition)
+LocJudged(i) == ChainOf(i) # {} \/ HasPulse(P.cpi)
 \* (the simulated cycle is evaluated once per pattern and bound by LET)
-TestsLocCombine == (R.raised \/ ~LocDomain \/ LET v == Eval(R.st, 8, InitAsg) IN \A i \in 1..NI : R.loc[i][j] = ExpLocV(v, i)) \/ Fail("TestsLocCombine")
+TestsLocCombine == (R.raised \/ ~R.loc_checked \/ LET v == Eval(R.st, 8, InitAsg) IN \A i \in 1..NI : LocJudged(i) => R.loc[i][j] = ExpLocV(v, i)) \/ Fail("TestsLocCombine")
 \* partially specified patterns (X or - among loads and inputs): definite expectations are exact, the rest stays unknown
-TestsLocPartial == (R.raised \/ R.loc_checked \/ ~HasPulse(P.cpi)
-                    \/ LET v == Eval(R.st, 8, InitAsg) IN \A i \in 1..NI : LET e == ExpLocV(v, i) IN IF e \in {UNKNOWN, UNASSIGNED} THEN R.loc[i][j] \in {UNKNOWN, UNASSIGNED}
+TestsLocPartial == (R.raised \/ R.loc_checked
+                    \/ LET v == Eval(R.st, 8, InitAsg) IN \A i \in 1..NI : ~LocJudged(i) \/ LET e == ExpLocV(v, i) IN IF e \in {UNKNOWN, UNASSIGNED} THEN R.loc[i][j] \in {UNKNOWN, UNASSIGNED}
                                                                 ELSE R.loc[i][j] = e) \/ Fail("TestsLocPartial")
 \* machinery: the interface order the specification derives from the structure is the one the record uses
 IfaceIsSNodes == (j > 1) \/ (NI = Len(SNodes(R.st)) /\ \A i \in 1..NI : R.iface[i] = NameOf(R.st, SNodes(R.st)[i]) /\ TopoOK(R.st))
